@@ -38,6 +38,13 @@ def ensure_streams(app: appboot.App):
     a = mp4synth.make_track("audio", 48000, [96256, 96256, 96256, 48128], samples_per_segment=94,
                             seed=22, track_id=2, with_tfdt=False)
     mp4synth.register(app, "syn2", "Synthetic 90k", {"syn2_v1": v, "syn2_a1": a}, timing_from="syn2_v1")
+    # syn3: fragments numbered from 7 (start_number != 1), constant durations
+    v = mp4synth.make_track("video", 240, [960, 960, 960, 960, 960], samples_per_segment=4,
+                            seed=31, track_id=1, start_number=7)
+    a = mp4synth.make_track("audio", 48000, [192512, 191488, 192512, 191488, 192000],
+                            samples_per_segment=[188, 187, 188, 187, 187], seed=32, track_id=2,
+                            start_number=7, sample_durations_in="trun")
+    mp4synth.register(app, "syn3", "Synthetic numbered from 7", {"syn3_v1": v, "syn3_a1": a}, timing_from="syn3_v1")
     _STREAMS_READY = True
 
 
